@@ -237,7 +237,7 @@ func facTree(r *rand.Rand, depth int, unstarted bool) *node {
 func genFac(r *rand.Rand, tier string) []string {
 	n := 400
 	if tier == "thorough" {
-		n = 12000
+		n = 8000
 	}
 	var out []string
 	for i := 0; i < n; i++ {
